@@ -7,7 +7,7 @@ LEVEL = 'proof'
 
 def run(rep):
     control.body_deductive(rep)
-    control.parse_deductive(rep)
+    control.parse_deductive(rep, control.PARSE_BODY)
     q = rep.tier == 'quick'
     fw.standin(rep, 'difftest.py', ['run', 'F2', rep.seed, 1500 if q else 20000, '--max-depth', 3 if q else 4],
                'translation validation: compiled clause bodies with cuts vs reference interpreter',
